@@ -27,6 +27,12 @@ def plan(tier, seed):
 
 
 def run(shard, ctx):
+    if shard.get("index") == 2:
+        # the application's ambient decimal context is not the library's business: register/1000 and register/10 do not depend on it
+        import decimal
+
+        decimal.setcontext(decimal.Context(prec=4, rounding=decimal.ROUND_DOWN))
+        ctx.seen("environment", "ambient decimal context prec=4")
     if shard.get("kind") == "threads":
         for _ in range(shard["rounds"]):
             dlms_common.run_threads(ID, dlms_gen.kaifa_case, ctx)
